@@ -287,7 +287,7 @@ def mon_c13(script, res):
             if r['kind'] == 'start':
                 if code == 0:
                     if not r['forked']:
-                        if r['st'] == 40:
+                        if r['st'] == 40 and r['arg'] == 0:
                             _known('C13-start-stopping')
                         else:
                             return 'startProcess(p%d) answered true but no child was forked by the call (state at request %s)' % (r['i'], r['st'])
